@@ -248,6 +248,11 @@ def run(chk):
     nr6 = c09.hierarchy_relations(chk, db, "C01-D6.relations")
     chk.floor("C01-D6.relations", nr6, 4, "local polynomial rules with closed-form hierarchy relations")
 
+    from rules import dispatch
+    chk.rule("C01-D7.dispatch", "every switch(effective_rule) in the local polynomial grid instantiates, in each case, the templates for the rule of that case")
+    ndsp = dispatch.dispatch_rule(chk, db, "C01-D7.dispatch")
+    chk.floor("C01-D7.dispatch", ndsp, 15, "rule-dispatch switches")
+
     return ("Static rule discharge over the five grid classes (all instantiations): must-pass-after analysis on the CFG tying every change of the stored values / loaded points to a decision "
             "about the hierarchical coefficients (method summaries are computed as a fixpoint over calls on the same object), the merge-order obligations shared with C07, the guard of the "
             "Kronecker algorithm, the pairing of columns and basis values in its sparse Vandermonde pattern, the single-point insertion kernel and the rebuild of the evaluation tree. That the computed surpluses / coefficients are the right numbers is numerical and not decided.")
